@@ -13,7 +13,7 @@ from typing import TYPE_CHECKING, Literal
 
 import libcst as cst
 
-from pynguin.assertion.assertion import ExceptionAssertion
+from pynguin.assertion.assertion import ExceptionAssertion, ReferenceAssertion
 from pynguin.utils import randomness
 
 if TYPE_CHECKING:
@@ -596,6 +596,11 @@ class TestCase:  # noqa: PLR0904
         for i in range(len(self._statements) - 1, -1, -1):
             stmt = self._statements[i]
             bv = stmt.bound_variable
+            # Assertions are rendered right after their statement and read the
+            # variables they refer to: those variables are alive at this point.
+            for assertion in stmt.assertions:
+                if isinstance(assertion, ReferenceAssertion):
+                    alive_vars.add(assertion.source.split(".", 1)[0])
 
             if bv is not None:
                 if bv in alive_vars:
@@ -606,10 +611,8 @@ class TestCase:  # noqa: PLR0904
                     # Variable is NOT used later. Transform Assign to Expr.
                     new_node = self._transform_assign_to_expr(stmt.node)
                     if new_node is not stmt.node:
-                        self._statements[i] = Statement(
-                            node=new_node,
-                            bound_variable=None,
-                            bound_type=None,
+                        self._statements[i] = dataclasses.replace(
+                            stmt, node=new_node, bound_variable=None, bound_type=None
                         )
                     # Even if unused, the RHS might use other variables
                     alive_vars.update(_get_used_variables(stmt))
